@@ -200,6 +200,10 @@ func sdfCatalogue(seed int64, k int) []probeShape {
 		c.add2("Array2D", nm(pn), func() (sdf.SDF2, error) {
 			return sdf.Array2D(p, v2i.Vec{X: 1 + c.rnd.Intn(3), Y: 1 + c.rnd.Intn(3)}, v2.Vec{X: c.u(-5, 5), Y: c.u(-5, 5)}), nil
 		})
+		c.add2("Array2D", "dense:"+nm(pn), func() (sdf.SDF2, error) {
+			sz := p.BoundingBox().Size()
+			return sdf.Array2D(p, v2i.Vec{X: 3 + c.rnd.Intn(5), Y: 1 + c.rnd.Intn(4)}, v2.Vec{X: c.u(0.15, 0.4) * sz.X, Y: c.u(-0.4, 0.4) * sz.Y}), nil
+		})
 		c.add2("RotateUnion2D", nm(pn), func() (sdf.SDF2, error) {
 			n := 2 + c.rnd.Intn(6)
 			return sdf.RotateUnion2D(p, n, sdf.Rotate2d(c.u(0.2, 1)*sdf.Tau/float64(n))), nil
@@ -253,6 +257,18 @@ func sdfCatalogue(seed int64, k int) []probeShape {
 		c.add3("Array3D", nm(sn), func() (sdf.SDF3, error) {
 			return sdf.Array3D(s, v3i.Vec{X: 1 + c.rnd.Intn(2), Y: 1 + c.rnd.Intn(3), Z: 1 + c.rnd.Intn(2)},
 				v3.Vec{X: c.u(-5, 5), Y: c.u(-5, 5), Z: c.u(-4, 4)}), nil
+		})
+		c.add3("Array3D", "dense:"+nm(sn), func() (sdf.SDF3, error) {
+			// a hatch of long slanted rods at a pitch far below their length (each part spans many steps), and
+			// the operand itself at a pitch below its size
+			if c.rnd.Intn(2) == 0 {
+				rod, _ := sdf.Box3D(v3.Vec{X: c.u(5, 8), Y: 0.4, Z: 0.4}, 0)
+				part := sdf.Transform3D(rod, sdf.Translate3d(v3.Vec{X: c.u(-1, 1), Y: c.u(-1, 1)}).Mul(sdf.RotateZ(c.u(0.3, 1.2))))
+				return sdf.Array3D(part, v3i.Vec{X: 4 + c.rnd.Intn(4), Y: 1 + c.rnd.Intn(3), Z: 1}, v3.Vec{X: c.u(0.7, 1.1), Y: c.u(0.8, 1.5), Z: 1}), nil
+			}
+			sz := s.BoundingBox().Size()
+			return sdf.Array3D(s, v3i.Vec{X: 3 + c.rnd.Intn(4), Y: 1 + c.rnd.Intn(4), Z: 1 + c.rnd.Intn(2)},
+				v3.Vec{X: c.u(0.15, 0.4) * sz.X, Y: c.u(-0.4, 0.4) * sz.Y, Z: c.u(0.2, 0.6) * sz.Z}), nil
 		})
 		c.add3("RotateUnion3D", nm(sn), func() (sdf.SDF3, error) {
 			n := 2 + c.rnd.Intn(5)
